@@ -12,7 +12,10 @@ Driver ops of C06 (WP nth): `Pc.NthIt.nthPrimeCpp` — src/nth_prime.cpp with th
       entries found by the harness op `nth_papprox n0 k` (the first k values n ≥ n0 whose approximation is ITSELF A PRIME):
       each certified like `nth_judge` (q prime by trial division, `piq = n`, direction consistent), `approx` prime (trial
       division), and the model walk from `approx` must end on `q`; `ok` or the first complaint
-      `bad:<reason>:n=<n>:impl=<q>:model=<model walk result>`.
+      `bad:<reason>:n=<n>:impl=<q>:model=<model walk result>:approx=…:capprox=…:lg=…`.
+  nth_from <n> <approx> <capprox> <lg>
+      the model walk for n from the given approximation / count (same op name on the harness: `nth_prime(n)`); used as the
+      replayable failing input of `nth-approx-prime`.
   cli_nth_expr <hex of expr>
       `primecount <expr> --nth-prime`: `0:<prime>` | `nz:` — `Calc.cliNumber` then `NthIt.cliNthPrime` (values up to 20000).
 -/
@@ -92,7 +95,7 @@ def nthPapproxEntry (e : String) : String :=
       else if !isPrimeTD approx.toNat then s!"approx={approx}-not-prime"
       else if m ≠ "-" ∧ m ≠ toString q then s!"walk(approx={approx},pi(approx)={capprox})"
       else ""
-    if r = "" then "ok" else s!"bad:{r}:n={n}:impl={q}:model={m}"
+    if r = "" then "ok" else s!"bad:{r}:n={n}:impl={q}:model={m}:approx={approx}:capprox={capprox}:lg={lg}"
   | _ => "ERR:proto"
 
 def nthPapproxChk (a : List String) : String :=
@@ -129,8 +132,21 @@ def nthCliExpr (a : List String) : String :=
             if o == toString v then "0:" ++ o else s!"bad:model={v}/oracle={o}"
   | _ => "ERR:proto"
 
+/-- `nth_from n approx capprox lg`: the model walk alone (the harness op of the same name prints `nth_prime(n)`): the replayable form
+    of a complaint of `nth_papprox_chk` -/
+def nthFrom (a : List String) : String :=
+  match a.map parseInt? with
+  | [some n, some approx, some capprox, some lg] =>
+    if !nthInRange n then "ERR:pc"
+    else if !nthItInBound n approx capprox then "ERR:model-bound"
+    else nthItWalkStr (match walkIt (It.execEnv #[]) approx n capprox lg with
+      | .ok v => .ok v
+      | .error e => .error (.walk e))
+  | _ => "ERR:proto"
+
 def nthItOps : String → Option (List String → String)
   | "nth_it" => some nthIt
+  | "nth_from" => some nthFrom
   | "nth_papprox_chk" => some nthPapproxChk
   | "cli_nth_expr" => some nthCliExpr
   | _ => none
